@@ -207,6 +207,18 @@ func pick[T any](t *rapid.T, label string, xs []T) T { return kit.Pick(t, label,
 func chance(t *rapid.T, label string, percent int) bool { return kit.Chance(t, label, percent) }
 
 func genHostileFees(t *rapid.T) []kit.Fee {
+	if chance(t, "hf/spelled", 25) {
+		// valid recipients and small valid entries, one fixed amount in an odd spelling: gets past
+		// every other check, so that the spelled amount reaches the computation
+		n := rapid.IntRange(0, 3).Draw(t, "hf/sp/n")
+		var fees []kit.Fee
+		for i := 0; i < n; i++ {
+			fees = append(fees, kit.Fee{Recipient: kit.PlainUser(t, fmt.Sprintf("hf/sp/%d", i)), Bps: uint32(1 + rapid.IntRange(0, 99).Draw(t, fmt.Sprintf("hf/sp/%d/bps", i)))})
+		}
+		at := rapid.IntRange(0, len(fees)).Draw(t, "hf/sp/at")
+		sp := kit.Fee{Recipient: kit.PlainUser(t, "hf/sp/rcpt"), Fixed: kit.NumberSpelling(t, "hf/sp/v")}
+		return append(fees[:at], append([]kit.Fee{sp}, fees[at:]...)...)
+	}
 	n := rapid.IntRange(0, 7).Draw(t, "hf/n")
 	var fees []kit.Fee
 	for i := 0; i < n; i++ {
